@@ -91,6 +91,7 @@ TrCall ==
                       /\ last' = [q |-> Line, r |-> c.o.r, ret |-> c.o.ret, dv |-> c.o.dv, before |-> store]
                       /\ ops' = ops + 1
                       /\ used' = used \cup c.u
+                      /\ ("?" \in c.u) => PrintT(ToJson([h |-> hid, line |-> l, i |-> Line.i, op |-> Line.op, unattributed |-> TRUE]))
                       /\ bad' = FALSE
 
 TraceNext == TrReset \/ TrCall \/ TrEnd
